@@ -1,6 +1,7 @@
 package bgen
 
 import (
+	"fmt"
 	"strconv"
 	"strings"
 )
@@ -178,6 +179,14 @@ func DescriptionFiles() map[string]string {
 		}
 		for _, w := range []int{1, 38, 39, 40, 41, 71, 72, 73, 79, 80, 81, 120} {
 			out["width:"+strconv.Itoa(indent)+":"+strconv.Itoa(w)] = open + tabs + "| " + word(w) + " " + word(w) + " x\n" + closeS
+		}
+		// separators of several blanks, and trailing blanks, at every position around the wrap column
+		for w := 66; w <= 82; w++ {
+			for si, sep := range []string{"  ", "   ", " \t", "\t"} {
+				out[fmt.Sprintf("boundary:%d:%d:sep%d", indent, w, si)] = open + tabs + "| " + word(w) + sep + "bbb\n" + closeS
+				out[fmt.Sprintf("boundary:%d:%d:trail%d", indent, w, si)] = open + tabs + "| " + word(w) + sep + "\n" + tabs + "| bbb\n" + closeS
+				out[fmt.Sprintf("boundary:%d:%d:lead%d", indent, w, si)] = open + tabs + "|" + sep + word(w) + " bbb\n" + closeS
+			}
 		}
 		for name, body := range map[string]string{
 			"para":      "| one two\n|\n| three",
